@@ -287,6 +287,21 @@ func c12CheckDescr(c c12DescrCase) (v vcase.Verdict) {
 				return
 			}
 		}
+		// Interpolating between two equal order statistics must give exactly that
+		// value (in particular a constant sample has every percentile equal to its
+		// value, and ties at the extremes can never leave [min, max]). Only asserted
+		// when the exact position is not within 1e-9 of an order statistic, so that
+		// float rounding of the position cannot select a different pair.
+		if nlo, nhi, frac, ok := refstat.R8Neighbours(c.Xs, p); ok && nlo == nhi {
+			f, _ := frac.Float64()
+			if f > 1e-9 && f < 1-1e-9 {
+				v.Label("tied_neighbours")
+				if got != nlo {
+					v.Failf("Percentile(%v) = %.17g lies between two order statistics that are both %.17g (n=%d)", p, got, nlo, n)
+					return
+				}
+			}
+		}
 		// Bounded by the extremes; monotone in p. The interpolation
 		// x_k + frac·(x_{k+1} − x_k) rounds three times, so a value may
 		// overshoot its neighbours by at most 2 ulp of the scale.
